@@ -23,6 +23,8 @@ RULE = (
     "(lon,lat) = toast_tile_get_coords(create_single_tile(p)); update mode: defined sampler pixels replace, undefined keep the old value; "
     "parallel result identical to serial; jpg compared at write_image. Depth 0: pixel (i,j) must be the sampler at the centre of tile "
     "(8,j,i) of the independent reference (1e-6). Non-trivial: >= 4 tiles or depth 0; distinct by spec."
+    ' Also: big-endian sampler outputs; the two update passes as two concurrent jobs on one pyramid (statement-boundary delays, 300x di'
+    'lated lock clock, a slow source for the first tiles of one job); producer-stall / late-check profiles in the parallel runs.'
 )
 ASSUMPTIONS = ["toast_tile_get_coords is trusted here (decided by C05)", "samplers are functions of cos/sin of the longitude (grids may be on any 2pi branch)"]
 SAMPLERS = ["f64pos", "f32", "u8", "i16", "rgb", "rgba", "f32_be", "f64pos_be", "i16_be"]
